@@ -47,7 +47,7 @@ VARIANTS = [
     V("pair-open-closed", ["C11", "C10"], H, "            nodes0to1 = NodeSample.open_linspace(nptsinteg)\n            integrator = IntegratorArray.open_newton_cotes(nptsinteg)", "            nodes0to1 = NodeSample.open_linspace(nptsinteg)\n            integrator = IntegratorArray.closed_newton_cotes(nptsinteg)", "PAIR", "func2func", "open nodes with closed weights"),
     V("pair-size", ["C11", "C10"], H, "            integrator = IntegratorArray.open_newton_cotes(nptsinteg)", "            integrator = IntegratorArray.open_newton_cotes(nptsinteg - 1)", "PAIR", "func2func", "weights for one point less"),
     V("registry-cheby-gauss", ["C10"], CA, "            \"chebyshev\": heavy.NodeSample.chebyshev,\n            \"gauss-legendre\": heavy.NodeSample.gauss_legendre,\n", "            \"chebyshev\": heavy.NodeSample.gauss_legendre,\n            \"gauss-legendre\": heavy.NodeSample.gauss_legendre,\n", "PAIR", "Integrate.density", "chebyshev weights at gauss nodes", near=246),
-    V("integ-default-cheby", ["C16"], CA, "        elif isinstance(curve.knotvector[0], (int, Fraction)):\n            method = \"open-newton-cotes\"\n        else:\n            method = \"chebyshev\"\n        if nnodes is None:\n            nnodes = 1 + curve.degree\n        nodes_func = nodes_functs[method]\n        integ_array_func = array_functs[method]\n        nodes_0to1 = nodes_func(nnodes)\n        integ_array = integ_array_func(nnodes)\n        knots = curve.knotvector.knots\n        integrals = []\n        for start, end in zip(knots[:-1], knots[1:]):\n            nodes = tuple(start + (end - start) * node for node in nodes_0to1)\n            curve_vals = tuple(curve.eval(node) for node in nodes)\n            function_vals", "        elif isinstance(curve.knotvector[0], (int, Fraction)):\n            method = \"chebyshev\"\n        else:\n            method = \"chebyshev\"\n        if nnodes is None:\n            nnodes = 1 + curve.degree\n        nodes_func = nodes_functs[method]\n        integ_array_func = array_functs[method]\n        nodes_0to1 = nodes_func(nnodes)\n        integ_array = integ_array_func(nnodes)\n        knots = curve.knotvector.knots\n        integrals = []\n        for start, end in zip(knots[:-1], knots[1:]):\n            nodes = tuple(start + (end - start) * node for node in nodes_0to1)\n            curve_vals = tuple(curve.eval(node) for node in nodes)\n            function_vals", "E8", "Integrate.scalar", "default rule on exact knots is Chebyshev"),
+    V("integ-default-cheby", ["C16"], CA, "            method = \"open-newton-cotes\"\n        else:\n            method = \"chebyshev\"\n        if nnodes is None:\n            nnodes = 1 + curve.degree\n", "            method = \"chebyshev\"\n        else:\n            method = \"chebyshev\"\n        if nnodes is None:\n            nnodes = 1 + curve.degree\n", "E8", "Integrate.scalar", "default rule on exact knots is Chebyshev", near=157),
     V("div-noguard", ["C08"], C, "            copied.ctrlpoints = [point / other for point in copied.ctrlpoints]\n            return copied\n        if self.knotvector.limits != other.knotvector.limits:\n            raise ValueError\n", "            copied.ctrlpoints = [point / other for point in copied.ctrlpoints]\n            return copied\n", "GATE-LIMITS", "__truediv__", "curve / curve without limits guard"),
     V("fit-rational-drop-nodes", ["C11", "C05"], C, "transmat, materror = lstsq(vectorb, weightsb, vectora, weightsa, nodes)", "transmat, materror = lstsq(vectorb, weightsb, vectora, weightsa)", "ARG-FLOW", "fit_curve", "rational fit drops the interpolation nodes"),
     V("remove-none-nodes", ["C05"], C, "        knots = newknotvec.knots if newknotvec.degree != 0 else None\n        self.update(newknotvec, tolerance, knots)\n\n    def knot_clean", "        knots = newknotvec.knots if newknotvec.degree != 0 else None\n        self.update(newknotvec, tolerance, None)\n\n    def knot_clean", "ARG-FLOW", "knot_remove", "remaining knots not passed on"),
